@@ -439,9 +439,9 @@ inductive Step : State → Label → State → Prop
   | internal {s l s'} : (l, s') ∈ succ s → Step s l s'
 
 /-- Runs: sequences of steps with their labels (invisible steps included). -/
-inductive Run : State → List Label → State → Prop
-  | nil (s) : Run s [] s
-  | snoc {s tr s' l s''} : Run s tr s' → Step s' l s'' → Run s (tr ++ [l]) s''
+inductive Run (s0 : State) : List Label → State → Prop
+  | nil : Run s0 [] s0
+  | snoc {tr s' l s''} : Run s0 tr s' → Step s' l s'' → Run s0 (tr ++ [l]) s''
 
 def Label.isEndpoint : Label → Bool
   | .ep _ => true
